@@ -365,6 +365,17 @@ func run(c Case, withRestarts bool) (res runResult) {
 		}
 		wasStale := m.staleClass
 		sessionPuts := m.absorb(s, log, credsUser, credsOK)
+		// The management API is the contract: a DELETE /sessions/{id} answered with success means
+		// that session is gone, whatever key the implementation chose to remove from the store.
+		if s.Op == "del_session" && rep.Status >= 200 && rep.Status < 300 && !stepFault {
+			if id, ok := env.CookieValue(s.Session); ok {
+				if ms := m.sessions[id]; ms != nil && !ms.deleted {
+					ms.deleted = true
+					m.touchedSessions[id] = true // "touched" = affected by a delete/expiry: makes later uses non-trivial
+					res.classes["session:deleted-by-request"] = true
+				}
+			}
+		}
 		if m.staleClass && !wasStale {
 			res.classes["svc:overwritten-with-other-entity-or-shared-entity-deleted"] = true
 		}
